@@ -278,6 +278,12 @@ impl Ctx {
 
     /// Run one property part. Returns true when it held on everything explored.
     pub fn run<P: Prop>(&mut self, p: &P, params: &Params) -> bool {
+        // debugging aid: PV_ONLY_PART=<text> runs only the parts whose name contains the text
+        if let Ok(only) = std::env::var("PV_ONLY_PART") {
+            if !only.is_empty() && !p.name().contains(&only) {
+                return true;
+            }
+        }
         let t0 = Instant::now();
         let mut st = PartStats {
             name: p.name(),
